@@ -519,3 +519,154 @@ End StrSeq.
 (* the one call whose precondition the two readers treat differently *)
 Definition rop_ok (data : list N) (op : rop) : bool :=
   match op with RdSetPos p => p <=? N.of_nat (length data) | _ => true end.
+
+(* ================================================================== adaptive clients of the reader interface *)
+
+(* A deterministic client of IMsgPackReader: it issues an operation, sees the answer (value / not
+   loaded / exception class, and GetPosition() after a call that returned), and decides from that what
+   to do next.  The archive scope classes are such clients (FindValueByKey reads a key, compares,
+   skips or seeks back to mStartPos, ...).  The run ends when the client returns, or at the first
+   exception (what the destructors do while an exception propagates is not part of the run). *)
+Inductive client (A : Type) : Type :=
+| CRet (a : A)
+| CCall (op : rop) (k : ans -> client A).
+Arguments CRet {A} a.
+Arguments CCall {A} op k.
+
+Definition transcript := list (rop * ans).
+
+(* a strategy: from the transcript so far to the next operation, or stop; at most n steps *)
+Definition strategy := transcript -> option rop.
+
+Fixpoint client_of (n : nat) (sigma : strategy) (t : transcript) : client unit :=
+  match n with
+  | O => CRet tt
+  | S n' =>
+    match sigma t with
+    | None => CRet tt
+    | Some op => CCall op (fun a => client_of n' sigma (t ++ [(op, a)]))
+    end
+  end.
+
+Section Client.
+  Variable narrow : N -> option N.
+  Variable widen : N -> N.
+
+  (* the client driving CMsgPackStreamReader: the transcript and the client's result (None: stopped by an exception) *)
+  Fixpoint mps_client {A} (fuel : nat) (o : opts) (c : client A) (t : transcript) : prog (transcript * option A) :=
+    match c with
+    | CRet a => Ret (t, Some a)
+    | CCall op k =>
+      pbind (mps_op narrow widen fuel o op) (fun a =>
+        match a with
+        | QOk v => get_position (fun p => mps_client fuel o (k (AOkAt v p)) (t ++ [(op, AOkAt v p)]))
+        | QNot => get_position (fun p => mps_client fuel o (k (ANotAt p)) (t ++ [(op, ANotAt p)]))
+        | QErr e => Ret (t ++ [(op, AErrOf e)], None)
+        | QFuel => Ret (t ++ [(op, AFuelOut)], None)
+        end)
+    end.
+
+  (* the same client driving CMsgPackStringReader over [data], standing at the suffix d *)
+  Fixpoint str_client {A} (data : list N) (o : opts) (c : client A) (t : transcript) (d : list N) : transcript * option A :=
+    match c with
+    | CRet a => (t, Some a)
+    | CCall op k =>
+      match str_op narrow widen data o op d with
+      | ROk v r => let a := AOkAt v (N.of_nat (length data - length r)) in str_client data o (k a) (t ++ [(op, a)]) r
+      | RNot r => let a := ANotAt (N.of_nat (length data - length r)) in str_client data o (k a) (t ++ [(op, a)]) r
+      | RErr e => (t ++ [(op, AErrOf e)], None)
+      | RFuel => (t ++ [(op, AFuelOut)], None)
+      end
+    end.
+
+  (* every SetPosition the client issues when driven by the string reader lies inside the data (the
+     precondition of CMsgPackStringReader::SetPosition; otherwise that run ends in std::invalid_argument) *)
+  Fixpoint client_seeks_ok {A} (data : list N) (o : opts) (c : client A) (d : list N) : bool :=
+    match c with
+    | CRet _ => true
+    | CCall op k =>
+      rop_ok data op &&
+      match str_op narrow widen data o op d with
+      | ROk v r => client_seeks_ok data o (k (AOkAt v (N.of_nat (length data - length r)))) r
+      | RNot r => client_seeks_ok data o (k (ANotAt (N.of_nat (length data - length r)))) r
+      | _ => true
+      end
+    end.
+
+  Definition mps_client_mem {A} (K : nat) (data : list N) (fuel : nat) (o : opts) (c : client A) : outcome (transcript * option A) :=
+    match interp (memr_step K data) (mps_client fuel o c []) mem_start with
+    | Ok (a, _) => Ok a
+    | Fault => Fault
+    end.
+
+  Definition mps_client_bsr {A} (K : nat) (is0 : istream) (fuel : nat) (o : opts) (c : client A) : outcome (transcript * option A) :=
+    match interp (bsr_step K) (mps_client fuel o c []) (bsr_new K is0) with
+    | Ok (a, _) => Ok a
+    | Fault => Fault
+    end.
+
+  Definition str_client_run {A} (data : list N) (o : opts) (c : client A) : transcript * option A :=
+    str_client data o c [] data.
+End Client.
+
+(* the positions a transcript has shown to the client *)
+Fixpoint positions (t : transcript) : list N :=
+  match t with
+  | [] => []
+  | (_, AOkAt _ p) :: tl => p :: positions tl
+  | (_, ANotAt p) :: tl => p :: positions tl
+  | _ :: tl => positions tl
+  end.
+
+(* a strategy that seeks only to the start or to positions GetPosition() has returned to it *)
+Definition seeks_known (sigma : strategy) : Prop :=
+  forall t p, sigma t = Some (RdSetPos p) -> p = 0 \/ In p (positions t).
+
+(* ---- FindValueByKey in miniature: read the map header, remember the position behind it; for each
+   member read the key as a string and skip the value unless the key is the wanted one, then read the
+   value as int32; at the end seek back to the remembered position (mStartPos) ---- *)
+Definition s32 : ity := mkIty true 32.
+
+Fixpoint find_members (n : nat) (key : list N) (start : N) : client (option Z) :=
+  match n with
+  | O => CCall (RdSetPos start) (fun _ => CRet None)
+  | S n' =>
+    CCall RdStr (fun a =>
+      match a with
+      | AOkAt (VBytes s) _ =>
+        if list_eqb s key then
+          CCall (RdInt s32) (fun a2 =>
+            match a2 with
+            | AOkAt (VInt z) _ => CCall (RdSetPos start) (fun _ => CRet (Some z))
+            | _ => CCall (RdSetPos start) (fun _ => CRet None)
+            end)
+        else CCall RdSkip (fun _ => find_members n' key start)
+      | _ => CRet None
+      end)
+  end.
+
+(* the member count comes from the document: the loop is bounded by [bound] (the number of bytes) *)
+Definition find_by_key (bound : nat) (key : list N) : client (option Z) :=
+  CCall RdMap (fun a =>
+    match a with
+    | AOkAt (VNum n) start => find_members (N.to_nat (N.min n (N.of_nat bound))) key start
+    | _ => CRet None
+    end).
+
+(* ================================================================== where the reader stands at the end of a run *)
+
+(* the read sequences again, with GetPosition() of the reader after the last call of the run — after an
+   exception this is where the reader stands after the throw (the drivers' `p` lines) *)
+Definition mps_run_mem_pos (narrow : N -> option N) (widen : N -> N) (K : nat) (data : list N) (fuel : nat)
+  (o : opts) (ops : list rop) : outcome (list ans * N) :=
+  match interp (memr_step K data) (mps_seq narrow widen fuel o ops) mem_start with
+  | Ok (a, m) => Ok (a, N.of_nat (m_pos m))
+  | Fault => Fault
+  end.
+
+Definition mps_run_bsr_pos (narrow : N -> option N) (widen : N -> N) (K : nat) (is0 : istream) (fuel : nat)
+  (o : opts) (ops : list rop) : outcome (list ans * N) :=
+  match interp (bsr_step K) (mps_seq narrow widen fuel o ops) (bsr_new K is0) with
+  | Ok (a, s) => Ok (a, N.of_nat (bsr_get_position s))
+  | Fault => Fault
+  end.
